@@ -22,12 +22,12 @@ theorem new_default (A : View α) (N : Nat) (sigma offset : α) : new A N = new_
 
 @[simp] def abs (A : View α) (s : State α A.σ) : A.σ × AlmaState α := (s.view, { wtdSum := s.wtd_sum, cumWt := s.cum_wt, qVals := s.q_vals, qWtd := s.q_wtd, qOut := s.q_out })
 
-theorem upd_eq (A : View α) {sigma offset : α} (s : State α A.σ) (x : α) (hd0 : s.m = offset * (nat s.window_len + nat 1)) (hd1 : s.s = nat s.window_len / sigma) :
+theorem upd_eq (A : View α) {sigma offset : α} (s : State α A.σ) (x : α)  (hd0 : s.m = offset * (nat s.window_len + nat 1)) (hd1 : s.s = nat s.window_len / sigma) :
     (update A s x).map (abs A) = (wrap A (almaCore s.window_len sigma offset)).upd (abs A s) x := by
   simp only [update, wrap, mapV, binop, almaCore, almaWeight, abs]; gen_tie
-theorem upd_cfg (A : View α) (s s' : State α A.σ) (x : α) : update A s x = .ok s' → s'.window_len = s.window_len ∧ s'.m = s.m ∧ s'.s = s.s := by
+theorem upd_cfg (A : View α) (s s' : State α A.σ) (x : α)  : update A s x = .ok s' → s'.window_len = s.window_len ∧ s'.m = s.m ∧ s'.s = s.s := by
   simp only [update, almaCore, almaWeight]; gen_tie
-theorem last_eq (A : View α) {sigma offset : α} (s : State α A.σ) (hd0 : s.m = offset * (nat s.window_len + nat 1)) (hd1 : s.s = nat s.window_len / sigma) : last A s = (wrap A (almaCore s.window_len sigma offset)).last (abs A s) := by
+theorem last_eq (A : View α) {sigma offset : α} (s : State α A.σ)  (hd0 : s.m = offset * (nat s.window_len + nat 1)) (hd1 : s.s = nat s.window_len / sigma) : last A s = (wrap A (almaCore s.window_len sigma offset)).last (abs A s) := by
   simp only [last, wrap, mapV, binop, almaCore, almaWeight, abs]; gen_tie
 
 def sim (A : View α) (N : Nat) (sigma offset : α)  : Sim (mkView (s0 A N sigma offset) (update A) (last A)) (wrap A (almaCore N sigma offset)) where
@@ -37,15 +37,15 @@ def sim (A : View α) (N : Nat) (sigma offset : α)  : Sim (mkView (s0 A N sigma
   init_abs := by rfl
   upd := fun (s : State α A.σ) x hs => by
     obtain ⟨h0, h1, h2⟩ := hs
-    have := upd_eq A s x  (by (try rw [h0]); exact h1) (by (try rw [h0]); exact h2)
+    have := upd_eq A s x   (by (try rw [h0]); exact h1) (by (try rw [h0]); exact h2)
     (try rw [h0] at this); exact this
   upd_cfg := fun (s : State α A.σ) x s' hs h => by
     obtain ⟨h0, h1, h2⟩ := hs
-    have := upd_cfg A s s' x h
+    have := upd_cfg A s s' x  h
     simp_all
   last := fun (s : State α A.σ) hs => by
     obtain ⟨h0, h1, h2⟩ := hs
-    have := last_eq A s  (by (try rw [h0]); exact h1) (by (try rw [h0]); exact h2)
+    have := last_eq A s   (by (try rw [h0]); exact h1) (by (try rw [h0]); exact h2)
     (try rw [h0] at this); exact this
 
 /-- the Rust text of `Alma`, as translated, and the model agree on every input: same answers, same panics -/
